@@ -14,7 +14,8 @@ ConVals == { Con(FALSE, FALSE, FALSE, FALSE),     \* absent
           Con(TRUE, FALSE, FALSE, TRUE),       \* keep-alive
           Con(TRUE, FALSE, TRUE, FALSE),       \* upgrade
           Con(TRUE, FALSE, FALSE, FALSE),      \* other tokens only
-          Con(TRUE, TRUE, FALSE, TRUE) }       \* a list with keep-alive and close
+          Con(TRUE, TRUE, FALSE, TRUE),        \* a list with keep-alive and close
+          Con(TRUE, FALSE, TRUE, TRUE) }       \* a list with keep-alive and upgrade
 NoCon == Con(FALSE, FALSE, FALSE, FALSE)
 Kinds == [cls : {"ok"}, ver : {"1.0", "1.1"}, con : ConVals]
          \cup [cls : {"r417"}, ver : {"1.0", "1.1"}, con : {NoCon}]
